@@ -9,6 +9,10 @@ A placeholder spec is the JSON-able list [type, orient, idx, xfrm, sz] or [type,
   sz     None (absent = 'full') | 'full' | 'half' | 'quarter'
   name   (optional sixth member) the literal p:cNvPr/@name of the layout / notes-master placeholder; absent or None =
          the position-specific name 'Gen <k+1>' (distinct inside one population)
+  form   (optional seventh member) the ELEMENT FORM of the layout placeholder: absent or None = 'p:sp' | 'pic' (a
+         picture-bearing placeholder the designer filled in layout view is stored as p:pic: nvPicPr/cNvPr + cNvPicPr +
+         nvPr/p:ph, empty p:blipFill, p:spPr) | 'graphicFrame' (a filled table / chart / diagram placeholder:
+         nvGraphicFramePr/..., p:xfrm, empty a:graphic/a:graphicData). FORM_TYPES lists the (form, type) combinations.
 A population is an ordered list of specs (document order). Duplicate idx values arise in populations of two or
 more (equal idx values, or absent next to 0).
 
@@ -78,6 +82,11 @@ def spec_name(k, spec):
     return "Gen %d" % (k + 1)
 
 
+def spec_form(spec):
+    """Element form of the placeholder: 'sp' | 'pic' | 'graphicFrame' (seventh member, absent or None = 'sp')."""
+    return (spec[6] if len(spec) > 6 and spec[6] is not None else "sp")
+
+
 def sp_xml(k, spec):
     t, orient, idx, xfrm, sz = spec[:5]
     attrs = ""
@@ -92,6 +101,22 @@ def sp_xml(k, spec):
     x = ""
     if xfrm:
         x = '<a:xfrm><a:off x="%d" y="%d"/><a:ext cx="%d" cy="%d"/></a:xfrm>' % geo_for(k)
+    form = spec_form(spec)
+    if form == "pic":
+        # a picture-bearing placeholder the designer filled in layout view (the blip is left empty: no media part)
+        return ('<p:pic><p:nvPicPr><p:cNvPr id="%d" name=%s/><p:cNvPicPr><a:picLocks noGrp="1" noChangeAspect="1"/></p:cNvPicPr>'
+                '<p:nvPr><p:ph%s/></p:nvPr></p:nvPicPr><p:blipFill><a:blip/><a:stretch><a:fillRect/></a:stretch></p:blipFill>'
+                '<p:spPr>%s</p:spPr></p:pic>' % (k + 2, quoteattr(spec_name(k, spec)), attrs, x))
+    if form == "graphicFrame":
+        # a table / chart / diagram placeholder filled in layout view; p:xfrm is a required child of the frame, so
+        # 'no explicit geometry' is the empty <p:xfrm/>
+        gx = x.replace("<a:xfrm>", "<p:xfrm>").replace("</a:xfrm>", "</p:xfrm>") if xfrm else "<p:xfrm/>"
+        return ('<p:graphicFrame><p:nvGraphicFramePr><p:cNvPr id="%d" name=%s/><p:cNvGraphicFramePr><a:graphicFrameLocks noGrp="1"/>'
+                '</p:cNvGraphicFramePr><p:nvPr><p:ph%s/></p:nvPr></p:nvGraphicFramePr>%s'
+                '<a:graphic><a:graphicData uri="http://schemas.openxmlformats.org/drawingml/2006/table"/></a:graphic>'
+                '</p:graphicFrame>' % (k + 2, quoteattr(spec_name(k, spec)), attrs, gx))
+    if form != "sp":
+        raise ValueError(form)
     return ('<p:sp><p:nvSpPr><p:cNvPr id="%d" name=%s/><p:cNvSpPr><a:spLocks noGrp="1"/></p:cNvSpPr>'
             '<p:nvPr><p:ph%s/></p:nvPr></p:nvSpPr><p:spPr>%s</p:spPr>'
             '<p:txBody><a:bodyPr/><a:lstStyle/><a:p><a:endParaRPr lang="en-US"/></a:p></p:txBody></p:sp>'
@@ -282,6 +307,37 @@ def singles_names(types):
     for t, o, v in itertools.product(types, ORIENTS, SINGLE_NAME_VECTORS):
         out.append((with_names([[t, o, 1, False, None]], v), "template"))
     return out, len(types) * 2 * len(SINGLE_NAME_VECTORS)
+
+
+# element forms: which placeholder types PowerPoint stores as p:pic / p:graphicFrame once filled in layout view
+# (None = type absent = 'obj', the content placeholder, takes either)
+FORM_TYPES = [("pic", "pic"), ("pic", "clipArt"), ("pic", "media"), ("pic", None),
+              ("graphicFrame", "tbl"), ("graphicFrame", "chart"), ("graphicFrame", "dgm"), ("graphicFrame", None)]
+# (explicit geometry, master): a filled placeholder carries its geometry; 'no geometry of its own' is enumerated on the
+# bare master only (with the template master the library gives no master fallback for a non-p:sp layout placeholder:
+# reported to the maintainers of the checks, see ASSUMPTIONS of c13.py)
+FORM_XFRM_MASTER = [(True, "template"), (True, "bare"), (False, "bare")]
+
+
+def singles_forms():
+    """8 (form, type) x orient x idx x sz x 3 (xfrm, master)."""
+    out = []
+    for (form, t), o, i, s, (x, m) in itertools.product(FORM_TYPES, ORIENTS, IDXS, SZS, FORM_XFRM_MASTER):
+        out.append(([[t, o, i, x, s, None, form]], m))
+    return out, len(FORM_TYPES) * 2 * 4 * 4 * len(FORM_XFRM_MASTER)
+
+
+def pairs_forms(types):
+    """One member in a non-p:sp form (8 (form, type), explicit geometry, idx absent|1 by position), the other a p:sp of
+    every type x xfrm, both document orders, idx vector (a,1), orient and sz absent, template master."""
+    out = []
+    for (form, t), t2, x2, first in itertools.product(FORM_TYPES, types, XFRMS, (True, False)):
+        if first:
+            pop = [[t, None, None, True, None, None, form], [t2, None, 1, x2, None]]
+        else:
+            pop = [[t2, None, None, x2, None], [t, None, 1, True, None, None, form]]
+        out.append((pop, "template"))
+    return out, len(FORM_TYPES) * len(types) * 2 * 2
 
 
 PAIR_IDX_QUICK = [(None, None), (None, 1), (1, 1), (10, 1)]
